@@ -386,6 +386,12 @@ func runInproc(c Case) kit.Verdict {
 	self := pv[0][4:]
 	subst := substFor(c.Name, self)
 
+	// another instance of the same name must be told apart ("this proxy instance")
+	other, _ := httpspec.NewStack(c.Name)
+	if peer, err := probeStack(other, c.Name); err == nil {
+		distinctPseudonyms([]string{self, peer}, &v)
+	}
+
 	m := modelRequest(c, subst, self)
 	req := newReq(c, c.Req, subst)
 	ctx, remove, err := martian.TestContext(req, nil, nil)
@@ -1009,4 +1015,4 @@ func TestEnumerated(t *testing.T) {
 	})
 }
 
-func TestReplay(t *testing.T) { kit.Replay(t, propStack, propEnum, propWire) }
+func TestReplay(t *testing.T) { kit.Replay(t, propStack, propEnum, propWire, propChain, propChainWire) }
